@@ -3446,11 +3446,31 @@ class MapIndexAlign(MapAlign):
 
 class OpAlignPartitions(MaybeAlignPartitions):
     _parameters = ["frame", "other", "op"]
-    _projection_passthrough = True
 
     @functools.cached_property
     def _meta(self):
         return getattr(self.frame._meta, self.op)(self.other._meta)
+
+    def _simplify_up(self, parent, dependents):
+        if isinstance(parent, Projection):
+            # The result has the union of the columns of both inputs, so a
+            # projection has to be pushed into both of them
+            columns = determine_column_projection(self, parent, dependents)
+            columns = _convert_to_list(columns)
+            changed = False
+            operands = []
+            for operand in (self.frame, self.other):
+                if isinstance(operand, Expr) and operand.ndim > 1:
+                    keep = [col for col in operand.columns if col in columns]
+                    if keep != operand.columns:
+                        operand = operand[keep]
+                        changed = True
+                operands.append(operand)
+            if not changed:
+                return
+            return type(parent)(
+                type(self)(*operands, *self.operands[2:]), *parent.operands[1:]
+            )
 
     def _lower(self):
         # This can be expensive when something that has expensive division
